@@ -222,3 +222,85 @@ func VH_C02_tags() {
 	}
 	vrt.Reach("end")
 }
+
+// VH_C02_metrics: the same for the metrics table (type, fingerprint, timestamp, value), with symbolic float
+// values.
+func VH_C02_metrics() {
+	vrt.Unwind(300)
+	service.CreateColPools(4)
+	svc := vcMultimodal(NewMetricsInsertService(model.InsertServiceOpts{Node: &model.DataDatabasesMap{}}))
+	cols := svc.AcquireColumns()
+	mk := func(tag string, n int) *model.TimeSamplesData {
+		d := &model.TimeSamplesData{}
+		for i := 0; i < n; i++ {
+			d.MFingerprint = append(d.MFingerprint, vrt.Uint64(tag+"-fingerprint"))
+			d.MTimestampNS = append(d.MTimestampNS, vrt.Int64(tag+"-ts"))
+			d.MMessage = append(d.MMessage, "")
+			v := vrt.Float64(tag + "-value")
+			vrt.Assume(v == v)
+			d.MValue = append(d.MValue, v)
+			d.MType = append(d.MType, 2)
+			d.Size += 26
+		}
+		return d
+	}
+	a, b := mk("a", vrt.Len("rows-a", 0, 2)), mk("b", vrt.Len("rows-b", 0, 2))
+	n1, cols, err := svc.ProcessRequest(a, cols)
+	vrt.Assert(err == nil && n1 == len(a.MValue), "request-accepted-with-its-row-count")
+	n2, cols, err := svc.ProcessRequest(b, cols)
+	vrt.Assert(err == nil && n2 == len(b.MValue), "request-accepted-with-its-row-count")
+	vcRectangular(cols, n1+n2)
+	acq := (&MetricsAcquirer{}).deserialize(cols)
+	j := 0
+	for _, r := range []*model.TimeSamplesData{a, b} {
+		for i := range r.MValue {
+			vrt.Assert(acq.Type.Data[j] == r.MType[i] && acq.Fingerprint.Data[j] == r.MFingerprint[i] &&
+				acq.TimestampNS.Data[j] == r.MTimestampNS[i] && acq.Value.Data[j] == r.MValue[i], "row-from-its-own-request-row")
+			j++
+		}
+	}
+	vrt.Reach("end")
+}
+
+// VH_C02_profiles: two profile requests (one row each, array columns of symbolic lengths 0..2) appended to
+// one shared block by the real profile ProcessRequest (tuple/array column adaptors executed from SSA): every
+// column has two rows and the scalar fields of row j are those of request j.
+func VH_C02_profiles() {
+	vrt.Unwind(400)
+	service.CreateColPools(4)
+	svc := vcMultimodal(NewProfileSamplesInsertService(model.InsertServiceOpts{Node: &model.DataDatabasesMap{}}))
+	cols := svc.AcquireColumns()
+	mk := func(tag string) *model.ProfileData {
+		d := &model.ProfileData{
+			TimestampNs: []uint64{vrt.Uint64(tag + "-ts")}, DurationNs: []uint64{vrt.Uint64(tag + "-dur")},
+			Ptype: []string{"cpu"}, ServiceName: []string{"svc" + tag}, PeriodType: []string{"t"}, PeriodUnit: []string{"u"},
+			PayloadType: []string{"0"}, Payload: [][]byte{vrt.Bytes(tag+"-payload", 1)},
+		}
+		for i, n := 0, vrt.Len(tag+"-sample-types", 0, 2); i < n; i++ {
+			d.SamplesTypesUnits = append(d.SamplesTypesUnits, model.StrStr{Str1: "s", Str2: "u"})
+			d.ValuesAgg = append(d.ValuesAgg, model.ValuesAgg{ValueStr: "s", ValueInt64: vrt.Int64(tag + "-agg"), ValueInt32: 1})
+		}
+		for i, n := 0, vrt.Len(tag+"-tree-nodes", 0, 2); i < n; i++ {
+			d.Tree = append(d.Tree, model.TreeRootStructure{Field1: uint64(i), Field2: 1, Field3: 2,
+				ValueArrTuple: []model.ValuesArrTuple{{ValueStr: "s", FirstValueInt64: 1, SecondValueInt64: 2}}})
+			d.Function = append(d.Function, model.Function{ValueInt64: uint64(i), ValueStr: "f"})
+		}
+		if vrt.Bool(tag + "-has-tag") {
+			d.Tags = append(d.Tags, model.StrStr{Str1: "k", Str2: "v"})
+		}
+		return d
+	}
+	a, b := mk("a"), mk("b")
+	n1, cols, err := svc.ProcessRequest(a, cols)
+	vrt.Assert(err == nil && n1 == 1, "request-accepted-with-its-row-count")
+	n2, cols, err := svc.ProcessRequest(b, cols)
+	vrt.Assert(err == nil && n2 == 1, "request-accepted-with-its-row-count")
+	vcRectangular(cols, 2)
+	acq := (&profileSamplesAcquirer{}).fromIFace(cols)
+	for j, r := range []*model.ProfileData{a, b} {
+		vrt.Assert(acq.timestampNs.Data[j] == r.TimestampNs[0] && acq.durationNs.Data[j] == r.DurationNs[0], "row-times-from-its-own-request")
+		vrt.Assert(acq.serviceName.Data.Row(j) == r.ServiceName[0], "row-service-from-its-own-request")
+		vrt.Assert(acq.payload.Data.Row(j) == string(r.Payload[0]), "row-payload-from-its-own-request")
+	}
+	vrt.Reach("end")
+}
